@@ -270,6 +270,12 @@ def run_sig(case, ctx):
                 expv = TRY[t]
             ok = st3 == 'ok' and (g3 == expv or (isinstance(expv, float) and expv != expv and isinstance(g3, float) and g3 != g3)) and type(g3) is type(expv)
             ctx.check('try_fallback_iff_raises', ok, lambda: '%s: raising call (*%r, **%r) returned %s %r, expected fallback %r' % ('('.join(stack), a2, k2, st3, g3, expv))
+            if ok and len(k2) >= 2:
+                # the same call with its keywords written in the opposite order: the same arguments, the same fallback
+                k2r = dict(reversed(list(k2.items())))
+                st3r, g3r = ctx.call(wrap(f, stack), *a2, **k2r)
+                okr = st3r == 'ok' and (g3r == expv or (isinstance(expv, float) and expv != expv and isinstance(g3r, float) and g3r != g3r)) and type(g3r) is type(expv)
+                ctx.check('try_fallback_iff_raises', okr, lambda: '%s: raising call (*%r, **%r) - keywords in the opposite order - returned %s %r, expected fallback %r' % ('('.join(stack), a2, k2r, st3r, g3r, expv))
             if ok and t == 'try_list':
                 g3.append('polluted')     # the caller may edit the fallback it received
                 st4, g4 = ctx.call(wrap(f, stack), *a2, **k2)
